@@ -32,18 +32,18 @@ def obligations(tier):
                    bounds="5 dictionary-typed sites x key: str <= 4 symbolic (real message formatting, no stub) x allow_custom (bug hunting: inconclusive is expected)"))
     for p in range(8):
         obls.append(CH("all_classes_slots_junk_p%d" % p, H, "table_junk", t, mode="E1s", functions=F, env={"VERIF_PART": str(p)},
-                       bounds="cases with index %% 8 == %d of (class, slot/nested site) x 41 junk values (every JSON kind, nested, marking-shaped, format-hostile text and keys, deeper than the recursion limit) + deletion x allow_custom" % p))
+                       bounds="cases with index %% 8 == %d of (class, slot/nested site) x 43 junk values (every JSON kind, nested, marking-shaped, format-hostile text and keys, deeper than the recursion limit) + deletion x allow_custom" % p))
     obls.append(CH("registered_toplevel_extensions_intact", H, "toplevel_extension_registry", t, mode="E1s", functions=F + ["stix2.registry.class_for_type"],
-                   bounds="identity carrying 6 combinations of 3 registered extensions (two toplevel-property) x 20 slots x 36 junk values (quick: a third) x allow_custom: "
+                   bounds="identity carrying 6 combinations of 3 registered extensions (two toplevel-property) x 20 slots x 43 junk values (quick: a third) x allow_custom: "
                           "registry incl. every class's property tables unchanged, and single-extension objects behave as before"))
     obls.append(CH("factory_unchanged_by_failed_construction", H, "factory_after_failure", t, mode="E1s", functions=["stix2.environment.ObjectFactory.create"] + F[:1],
                    bounds="every junk value as external_references / object_marking_refs / created_by_ref through an ObjectFactory and an Environment whose defaults are lists: "
                           "family error or success, and the next valid construction equals the one before"))
     obls.append(CH("plain_python_subclasses", H, "plain_subclass", t, mode="E1s", functions=F + ["stix2.v21.sro.Relationship._check_object_constraints", "stix2.v21.sro.Sighting._check_object_constraints"],
-                   bounds="an empty Python subclass of every buildable registered class (both versions): builds from the base's arguments to the same text, and with each of 41 junk values "
+                   bounds="an empty Python subclass of every buildable registered class (both versions): builds from the base's arguments to the same text, and with each of 43 junk values "
                           "in one argument raises only from the family (no RecursionError from super() through self.__class__)"))
     if tier == "thorough":
         for p in range(8):
             obls.append(CH("two_corruptions_p%d" % p, H, "table_junk_pairs", t * 2, mode="E1s", functions=F, env={"VERIF_PART": str(p)},
-                           bounds="cases with index %% 8 == %d x 10 second corruptions (extensions, granular_markings, custom_properties, spec_version, id, ...) x 36 junk values x allow_custom" % p))
+                           bounds="cases with index %% 8 == %d x 10 second corruptions (extensions, granular_markings, custom_properties, spec_version, id, ...) x 43 junk values x allow_custom" % p))
     return obls
